@@ -550,6 +550,14 @@ def callMenu (now : Nat) (docs : List Forest) (recv : String) (m : String) (v : 
         let es := n.kids.filter (fun k => tagIsEvent k.tag)
         some (.val (.slice "Nodes" .nodeI es.isEmpty (es.map (.node d))))
       | "IndividualNode", "ShallowCopy" | "FamilyNode", "ShallowCopy" => none      -- adds the copy to the document
+      | "IndividualNode", "Document" | "FamilyNode", "Document" => some (.val (.doc d))
+      | "SexNode", "IsMale" => some (.val (.bool (n.value == ascii "M")))
+      | "SexNode", "IsFemale" => some (.val (.bool (n.value == ascii "F")))
+      | "SexNode", "IsUnknown" => some (.val (.bool (n.value != ascii "M" && n.value != ascii "F")))
+      | "SexNode", "OwnershipWord" =>
+        some (.val (.str (if n.value == ascii "M" then ascii "his" else if n.value == ascii "F" then ascii "her" else ascii "their")))
+      | "PlaceNode", "JurisdictionalEntities" => some (.val (.str (placeParts n).1))      -- result[0] of four
+      | "DateNode", "StartAndEndDates" => some (.val (.date (parseDateRange n.value).start false))   -- result[0] of two
       | "NameNode", "Prefix" => some (.val (.str (firstChildValue n "NPFX")))
       | "NameNode", "Suffix" => some (.val (.str (nameSuffix n)))
       | "NameNode", "SurnamePrefix" => some (.val (.str (firstChildValue n "SPFX")))
@@ -618,6 +626,11 @@ def callMenu (now : Nat) (docs : List Forest) (recv : String) (m : String) (v : 
       | "IndividualNode", "LDSBaptisms" => some (.val (.slice "Nodes" .nodeI true []))
       | "IndividualNode", "UniqueIDs" => some (.val (.slice "" (.ptr "UniqueIDNode") true []))
       | "IndividualNode", "AllEvents" => some .recovered
+      | "IndividualNode", "Document" | "FamilyNode", "Document" => some .recovered      -- promoted through the nil embedded pointer
+      | "SexNode", "IsMale" | "SexNode", "IsFemale" => some (.val (.bool false))
+      | "SexNode", "IsUnknown" => some (.val (.bool true))
+      | "SexNode", "OwnershipWord" => some (.val (.str (ascii "their")))
+      | "DateNode", "StartAndEndDates" => some (.val (.date zeroDate false))
       | "NameNode", "Prefix" | "NameNode", "Suffix" | "NameNode", "SurnamePrefix" | "NameNode", "Title" => some (.val (.str []))
       | "MapNode", "Latitude" => some (.val (.nilNode "LatitudeNode"))
       | "MapNode", "Longitude" => some (.val (.nilNode "LongitudeNode"))
@@ -726,7 +739,10 @@ def evalAccessor (now : Nat) (docs : List Forest) (q : Str) (v : Val) : Outcome 
 
 def intToDec (i : Int) : Str := if i < 0 then 45 :: natToDec i.natAbs else natToDec i.natAbs
 
-/-- fmt.Sprintf("%v", v) for the values whose rendering the model determines -/
+mutual
+/-- fmt.Sprintf("%v", v) for the values whose rendering the model determines: scalars, and
+    slices / maps of them (`[a b]`, `map[k:v …]` with sorted keys); not pointers, structs, named
+    integer types with a String method, or floats other than integers and halves -/
 def fmtV : Val → Option Str
   | .str s => some s
   | .int i => some (intToDec i)
@@ -735,12 +751,27 @@ def fmtV : Val → Option Str
   | .float n d =>
     -- %v of a float64 is its shortest decimal: determined here for integers and halves only
     if d == 0 then none
-    else if n % (d : Int) == 0 then some (intToDec (n / (d : Int)))
+    else if n % (d : Int) == 0 then (if (n / (d : Int)).natAbs < 1000000 then some (intToDec (n / (d : Int))) else none)
     else if (2 * n) % (d : Int) == 0 then
       let h := (2 * n) / (d : Int)                      -- odd
-      some ((if h < 0 then [45] else []) ++ natToDec (h.natAbs / 2) ++ ascii ".5")
+      if h.natAbs < 2000000 then some ((if h < 0 then [45] else []) ++ natToDec (h.natAbs / 2) ++ ascii ".5") else none
     else none
+  | .slice _ _ _ vs => (fmtVs vs).map (fun parts => [91] ++ (ascii " ").intercalate parts ++ [93])
+  | .map fs => (fmtVfs fs).map (fun parts => ascii "map[" ++ (ascii " ").intercalate parts ++ [93])
   | _ => none
+def fmtVs : List Val → Option (List Str)
+  | [] => some []
+  | v :: vs => do
+    let a ← fmtV v
+    let as ← fmtVs vs
+    pure (a :: as)
+def fmtVfs : List (Str × Val) → Option (List Str)
+  | [] => some []
+  | (k, v) :: vs => do
+    let a ← fmtV v
+    let as ← fmtVfs vs
+    pure ((k ++ [58] ++ a) :: as)
+end
 
 def digitsVal (ds : Str) : Nat := ds.foldl (fun a d => a * 10 + (d.toNat - 48)) 0
 
@@ -1284,9 +1315,21 @@ def recoverOutcome (recovers : Bool) : Outcome Val → Outcome Val
 def evalTopWith (now : Nat) (recovers guard : Bool) (fuel : Nat) (docs : List Forest) (eng : Engine) : Outcome Val :=
   recoverOutcome recovers (evalRaw now guard fuel docs eng)
 
-/-- `Engine.Evaluate` of the current tree: the two flags are regenerated from the code. -/
+/-- where the deferred recover sits relative to `documents[0]`: the index panic of an empty
+    document list is an error only if the recover is already installed when the first document is
+    taken (`coversNoDocs`, regenerated by a probe with a nil and an empty list) -/
+def recoverNoDocs (coversNoDocs : Bool) : Outcome Val → Outcome Val
+  | .error (.recovered .noDocuments) => if coversNoDocs then .error (.recovered .noDocuments) else .panic .noDocuments
+  | o => o
+
+/-- what `Engine.Evaluate` returns for the raw outcome of its body (both recover flags regenerated) -/
+def topOf (raw : Outcome Val) : Outcome Val :=
+  recoverNoDocs Generated.Query.evaluateRecoversNoDocuments (recoverOutcome Generated.Query.evaluateRecovers raw)
+
+/-- `Engine.Evaluate` of the current tree: the flags are regenerated from the code. -/
 def evalTop (now : Nat) (fuel : Nat) (docs : List Forest) (eng : Engine) : Outcome Val :=
-  evalTopWith now Generated.Query.evaluateRecovers Generated.Query.cycleGuard fuel docs eng
+  recoverNoDocs Generated.Query.evaluateRecoversNoDocuments
+    (evalTopWith now Generated.Query.evaluateRecovers Generated.Query.cycleGuard fuel docs eng)
 
 /-- enough fuel for every program whose variable definitions are acyclic (and, with the cycle
     guard, for every program): one level per statement plus the document variables -/
